@@ -51,6 +51,14 @@ Theorem neighbour_need_means_keep : forall w x o lo hi y,
 Proof. exact neighbour_needs_keeps. Qed.
 Print Assumptions neighbour_need_means_keep.
 
+(* "unknown / not deployed" is never "not needed": a member of the assembly whose process is gone (its operator is registered
+   but has no database: the NeedsTable RPC fails) keeps the file *)
+Theorem undeployed_neighbour_means_keep : forall w x o lo hi y,
+  o_fromdoc o = true -> x_own x = OwnRange lo hi -> x_nb x = NbOp ->
+  In y (g_dbs w) -> x_nb y = NbOp -> x_state y = Crashed -> cleanup_deletes w x o = false.
+Proof. exact undeployed_neighbour_keeps. Qed.
+Print Assumptions undeployed_neighbour_means_keep.
+
 Theorem needs_table_covers_own_checkpoints : forall x c t, In c (x_ckpts x) -> In t (c_tabs c) -> needs_table x (t_name t) = true.
 Proof. exact needs_table_own_checkpoint. Qed.
 Print Assumptions needs_table_covers_own_checkpoints.
@@ -64,10 +72,16 @@ Print Assumptions crashed_objects_delete_nothing.
 (* dropped_wals_removed: once the retention update HAS BEEN SAVED (its Save returned without error), the WAL file of every
    checkpoint it dropped is gone (a checkpoint is dropped when its id is neither listed nor newer than every listed id) ... *)
 Theorem dropped_wals_removed : forall w d ids f x c,
-  get_db w d = Some x -> retain_ok w d ids f = true -> In c (x_ckpts x) -> retain_keeps ids c = false ->
+  get_db w d = Some x -> retain_empty w d ids = false -> retain_ok w d ids f = true -> In c (x_ckpts x) -> retain_keeps ids c = false ->
   fs_has (g_fs (step_retain w d ids f)) (c_wal c) = false.
 Proof. exact retain_saved_removes_dropped_wals. Qed.
 Print Assumptions dropped_wals_removed.
+
+(* a retention update that names no checkpoint of the database (a late update of an earlier generation) is refused and changes
+   nothing: neither the list nor the pending removals *)
+Theorem refused_retention_update_changes_nothing : forall w d ids f, retain_empty w d ids = true -> step_retain w d ids f = w.
+Proof. exact refused_retention_changes_nothing. Qed.
+Print Assumptions refused_retention_update_changes_nothing.
 
 (* ... and only then: a retention update whose Save fails (storage fault while writing the checkpoints file, or while deleting)
    removes no file at all - the durable list still references the dropped checkpoints and their WALs are still there *)
